@@ -315,6 +315,15 @@ impl Default for RawBlindPool {
     }
 }
 
+#[cfg(folo_verif)]
+impl RawBlindPool {
+    /// Verification hook: read-only internal consistency probe.
+    #[doc(hidden)]
+    pub fn __verif_check(&self) -> Result<(), String> {
+        self.pools.values().try_for_each(RawOpaquePool::__verif_check)
+    }
+}
+
 #[cfg(test)]
 #[allow(
     clippy::indexing_slicing,
